@@ -304,6 +304,10 @@ def body():
                     {"line": {k: (v if len(str(v)) < 300 else str(v)[:300]) for k, v in line.items()}, "event": ev})
     for key, line, ev in meta[:2]:
         c.sample({"key": key, "event": ev})
+    # the command line tools as a user's session (tools/clilib.py, spec/Cli.tla): artefacts made by one tool, opened by another under right and wrong circumstances;
+    # the exit status is what a script sees
+    import clilib
+    clilib.judge_sessions(c, clilib.sessions(c, "C01", ['sm2sign'], "c01", [0, 1, 16, 4095, 4096, 4097, 10000] + ([] if c.quick else [8192, 65537, 1000000])), "c01")
     return c.finish(
         rule="verification: encoding forms (24) x valid signatures with/without leading 00, r/s classes 7x7, r+s=n, other r, context mutations (key, message bit, ID content/length, default-ID prefix/NUL), "
              "bit flips of encoded signature / raw (r,s) / public key, through sm2_verify, the verify context and sm2_do_verify; signing: 4 interfaces with logged entropy incl. pool refills; "
